@@ -42,7 +42,8 @@ for d in sorted(glob.glob(os.path.join(here, "seeded", "C*"))):
     if os.path.exists(cp):
         t = open(cp, errors="replace").read()
         conf = "yes" if "RESULT: outputs differ" in t else "no"
-    rows.append("| %s | %s | %s | %s |" % (name, meta["change"].replace("|", "\\|"), conf, "; ".join(cells)))
+    note = (" — " + meta["note"]) if meta.get("note") else ""
+    rows.append("| %s | %s | %s | %s%s |" % (name, meta["change"].replace("|", "\\|"), conf, "; ".join(cells), note))
 head = ("%d seeded defects; by the check of their own property: %d caught at the first run, %d caught after the check was "
         "strengthened (first → now), %d still missed. \"confirmed\" = the demo differs between a clean and a patched build "
         "(`confirm.txt`). Cross-checks (other properties' checks run on the same defect) are listed too.\n\n"
